@@ -371,8 +371,9 @@ class BinaryGroup(GroupNode):
         elif qb is None:
             q = qa
         else:
-            q = self.qclass(self.nodes[0].query(parser),
-                            self.nodes[1].query(parser))
+            # (the operands' queries are built once: building them again
+            # here doubled the work at every level of nesting)
+            q = self.qclass(qa, qb)
 
         return attach(q, self)
 
